@@ -33,6 +33,8 @@ import (
 	"unicode/utf8"
 
 	"golang.org/x/crypto/openpgp"
+	"golang.org/x/crypto/openpgp/armor"
+	"golang.org/x/crypto/openpgp/packet"
 	"perkeep.org/pkg/blob"
 	"perkeep.org/pkg/jsonsign"
 	"pgregory.net/rapid"
@@ -55,7 +57,7 @@ func TestMain(m *testing.M) {
 			"mutants (enumerated per document, not sampled): at EVERY byte position p of the signed document: substitution by each byte of a fixed family (case flip, c+1, c-1, quote, backslash, space, brace, comma, '0', 'A', '=', newline, 0x00, 0xC3 and two drawn bytes), insertion of each byte of a family before p (and at the end), deletion of p; "+
 			"for some documents ALL 255 substitutions and ALL 256 insertions at every position; structural forgeries per document (other key signs while payload names the first, signature spliced from another document, signer reference swapped, members appended behind the signature, duplicate camliSig). "+
 			"oracle: accepted => payload bytes (before the last separator) identical to the signed payload AND whole document is valid JSON with exactly the signed members + camliSig AND reported key id is the named signer's. "+
-			"evaluations = mutants + documents verified; non-trivial = mutant differs from the original and its position lies in the payload, the separator or the armored signature (not in the 3 trailing bytes), or a structural forgery; "+
+			"evaluations = mutants + documents verified; non-trivial = mutant differs from the original and its position lies in the payload, the separator or the armored signature (not behind the signature's closing quote), or a structural forgery; "+
 			"distinct = hash(document, position) — all edits tried at one position of one document are counted as ONE distinct case (conservative), structural forgeries one per (document, kind)")
 }
 
@@ -111,22 +113,77 @@ func entityOf(id *vsign.Identity) *openpgp.Entity {
 	return s
 }
 
-// registry of everything the harness signed legitimately: payload bytes -> signer
+// registry of everything the harness signed legitimately: payload bytes -> signer, and
+// (payload, signed portion of the signature packet) pairs
 var (
-	regMu  sync.Mutex
-	signed = map[string]*vsign.Identity{}
+	regMu      sync.Mutex
+	signed     = map[string]*vsign.Identity{}
+	signedSigs = map[string]bool{}
 )
 
-func register(payload string, id *vsign.Identity) {
+// registerSigned records a document produced by a legitimate signing call.
+func registerSigned(s string, id *vsign.Identity) error {
+	i := strings.LastIndex(s, sep)
+	if i < 0 {
+		return fmt.Errorf("no separator")
+	}
+	rest := s[i+len(sep):]
+	q := strings.IndexByte(rest, '"')
+	if q < 0 {
+		return fmt.Errorf("unterminated camliSig")
+	}
+	sg, err := parseSig(rest[:q])
+	if err != nil {
+		return fmt.Errorf("cannot decode the signature packet: %v", err)
+	}
 	regMu.Lock()
-	signed[payload] = id
+	signed[s[:i]] = id
+	signedSigs[s[:i]+"\x00"+string(sg.HashSuffix)] = true
 	regMu.Unlock()
+	return nil
 }
 
 func signedBy(payload string) *vsign.Identity {
 	regMu.Lock()
 	defer regMu.Unlock()
 	return signed[payload]
+}
+
+func sigRegistered(payload string, hashSuffix []byte) bool {
+	regMu.Lock()
+	defer regMu.Unlock()
+	return signedSigs[payload+"\x00"+string(hashSuffix)]
+}
+
+// parseSig decodes the single-line armored signature the way doc/json-signing describes it
+// (base64 text, '=' + CRC24 at the end) into the OpenPGP signature packet.
+func parseSig(line string) (*packet.Signature, error) {
+	eq := strings.LastIndex(line, "=")
+	if eq < 0 {
+		return nil, fmt.Errorf("no '=' in signature")
+	}
+	var sb strings.Builder
+	sb.WriteString("-----BEGIN PGP SIGNATURE-----\n\n")
+	body := line[:eq]
+	for len(body) > 0 {
+		n := min(len(body), 60)
+		sb.WriteString(body[:n] + "\n")
+		body = body[n:]
+	}
+	sb.WriteString(line[eq:] + "\n-----END PGP SIGNATURE-----\n")
+	block, err := armor.Decode(strings.NewReader(sb.String()))
+	if err != nil || block == nil {
+		return nil, fmt.Errorf("armor: %v", err)
+	}
+	p, err := packet.Read(block.Body)
+	if err != nil {
+		return nil, err
+	}
+	sg, ok := p.(*packet.Signature)
+	if !ok {
+		return nil, fmt.Errorf("not a signature packet: %T", p)
+	}
+	return sg, nil
 }
 
 // ---------------------------------------------------------------------------
@@ -312,9 +369,11 @@ type doc struct {
 	Tree     map[string]any `json:"-"`
 	LookLike int            `json:"literal_separators_in_payload"`
 
-	id      *vsign.Identity
-	signed  string
-	payload string // T: unsigned minus trailing whitespace and one '}'
+	id       *vsign.Identity
+	signed   string
+	payload  string // signed[:last separator]
+	sigStart int    // offset of the armored signature text in signed
+	sigEnd   int    // offset of its closing quote
 }
 
 var sigTimes = []int64{0, 1, 1 << 31, 1<<31 - 1, 1<<32 - 1, 1<<32 - 2, 1300000000}
@@ -352,22 +411,32 @@ func (d *doc) sign() string {
 		return fmt.Sprintf("signing a valid unsigned object failed: %v", err)
 	}
 	d.signed = s
-	trimmed := strings.TrimRight(d.Unsigned, " \t\r\n")
-	d.payload = trimmed[:len(trimmed)-1]
-	register(d.payload, d.id)
-	// shape demanded by doc/json-signing: C == T + ,"camliSig":" + S + "}\n
-	if !strings.HasPrefix(s, d.payload+sep) || !strings.HasSuffix(s, "\"}\n") {
-		return fmt.Sprintf("signed document is not T + separator + S + \"}\\n: %q", s)
+	// the payload is whatever precedes the last separator (doc/json-signing "VERIFYING"); the
+	// canonical shape T + separator + S + "}\n is recommended by the document, not demanded
+	i := strings.LastIndex(s, sep)
+	if i < 0 {
+		return fmt.Sprintf("signed document has no signature separator: %q", s)
 	}
-	if strings.LastIndex(s, sep) != len(d.payload) {
-		return fmt.Sprintf("the last separator of the signed document is at %d, the payload ends at %d", strings.LastIndex(s, sep), len(d.payload))
+	d.payload = s[:i]
+	d.sigStart = i + len(sep)
+	q := strings.IndexByte(s[d.sigStart:], '"')
+	if q < 0 {
+		return fmt.Sprintf("signed document has an unterminated camliSig: %q", s)
+	}
+	d.sigEnd = d.sigStart + q
+	if err := registerSigned(s, d.id); err != nil {
+		return fmt.Sprintf("signed document %q: %v", s, err)
+	}
+	trimmed := strings.TrimRight(d.Unsigned, " \t\r\n")
+	if s == trimmed[:len(trimmed)-1]+sep+s[d.sigStart:d.sigEnd]+"\"}\n" {
+		evid.R.Label("documents/canonical-shape")
 	}
 	var whole map[string]any
 	if err := json.Unmarshal([]byte(s), &whole); err != nil {
 		return fmt.Sprintf("signed document is not valid JSON: %v", err)
 	}
 	sig, _ := whole["camliSig"].(string)
-	if sig == "" || sig != s[len(d.payload)+len(sep):len(s)-3] {
+	if sig == "" || sig != s[d.sigStart:d.sigEnd] {
 		return "signed document does not expose camliSig as the appended signature string"
 	}
 	delete(whole, "camliSig")
@@ -442,6 +511,14 @@ func judgeAccepted(m string, vr *jsonsign.VerifyRequest) string {
 	if !reflect.DeepEqual(vr.PayloadMap, pm) {
 		return fmt.Sprintf("accepted, but PayloadMap %v differs from the signed payload %v", vr.PayloadMap, pm)
 	}
+	// the signature packet may only differ from a genuine one in parts that are not signed
+	sg, err := parseSig(vr.CamliSig)
+	if err != nil {
+		return fmt.Sprintf("accepted, but the harness cannot decode the signature packet: %v", err)
+	}
+	if !sigRegistered(payload, sg.HashSuffix) {
+		return fmt.Sprintf("accepted a signature packet whose signed portion (type %d, hash %v, time %v, suffix %x) is not one the harness produced for this payload", sg.SigType, sg.Hash, sg.CreationTime, sg.HashSuffix)
+	}
 	// the document as a whole: valid JSON, exactly the signed members + camliSig
 	var whole map[string]any
 	if err := json.Unmarshal([]byte(m), &whole); err != nil {
@@ -459,7 +536,8 @@ func judgeAccepted(m string, vr *jsonsign.VerifyRequest) string {
 
 type mutStats struct {
 	mutants  int
-	accepted map[string]int // region/op -> count of accepted (harmless) mutants
+	examples []map[string]any // first accepted (harmless) mutants, for the evidence samples
+	accepted map[string]int   // region/op -> count of accepted (harmless) mutants
 }
 
 func region(d *doc, p int) string {
@@ -468,8 +546,11 @@ func region(d *doc, p int) string {
 		return "payload"
 	case p < len(d.payload)+len(sep):
 		return "separator"
-	case p < len(d.signed)-3:
-		return "armor"
+	case p < d.sigEnd:
+		if eq := strings.LastIndex(d.signed[d.sigStart:d.sigEnd], "="); eq >= 0 && p >= d.sigStart+eq {
+			return "armor-crc"
+		}
+		return "armor-body"
 	}
 	return "tail"
 }
@@ -486,6 +567,9 @@ func tryMutant(d *doc, m string, op string, p int, st *mutStats) string {
 	}
 	reg := region(d, min(p, len(d.signed)-1))
 	st.accepted[reg+"/"+op]++
+	if len(st.examples) < 3 && (len(st.examples) == 0 || st.examples[len(st.examples)-1]["region"] != reg) {
+		st.examples = append(st.examples, map[string]any{"edit": op, "position": p, "region": reg, "verdict": "accepted; signed payload, signed part of the signature packet and exposed members identical to the original", "mutant": m})
+	}
 	i := strings.LastIndex(m, sep)
 	if i < 0 || m[:i] != d.payload {
 		got := ""
@@ -516,7 +600,7 @@ func enumerate(d *doc, drawn []byte, full bool, st *mutStats) string {
 	docHash := evid.Hash("doc", s)
 	buf := make([]byte, 0, len(s)+1)
 	for p := 0; p <= len(s); p++ {
-		nt := p < len(s)-3
+		nt := p < d.sigEnd
 		if nt {
 			evid.R.NonTrivial(evid.Hash(docHash, p))
 		}
@@ -599,7 +683,7 @@ func forgeries(d, other *doc, st *mutStats) string {
 		}
 		return ""
 	}
-	sigOf := func(x *doc) string { return x.signed[len(x.payload)+len(sep) : len(x.signed)-3] }
+	sigOf := func(x *doc) string { return x.signed[x.sigStart:x.sigEnd] }
 	// 1. the other key signs a payload that names d's signer
 	oth := otherOf(d.id)
 	sr := &jsonsign.SignRequest{UnsignedJSON: d.Unsigned, Fetcher: vsign.KeyFetcher(), EntityFetcher: fixedEntity{entityOf(oth)}, SignatureTime: time.Unix(d.SigTime, 0)}
@@ -626,6 +710,9 @@ func forgeries(d, other *doc, st *mutStats) string {
 	s2, err := d.id.SignJSON(d.Unsigned, time.Unix((d.SigTime+86400)%(1<<32), 0))
 	if err != nil {
 		return "re-signing at another time failed: " + err.Error()
+	}
+	if err := registerSigned(s2, d.id); err != nil {
+		return fmt.Sprintf("document re-signed at another time: %v", err)
 	}
 	if ok, _, _ := verifyAccepts(s2); !ok {
 		return "document re-signed at another time does not verify"
@@ -689,7 +776,7 @@ func flushStats(st *mutStats) {
 }
 
 func TestSignVerifyAndMutants(t *testing.T) {
-	evid.Check(t, 30, 110, func(t *rapid.T) {
+	evid.Check(t, 25, 160, func(t *rapid.T) {
 		d := genDoc(t)
 		other := genDoc(t)
 		drawn := []byte{rapid.Byte().Draw(t, "extraByte1"), rapid.Byte().Draw(t, "extraByte2")}
@@ -706,9 +793,6 @@ func TestSignVerifyAndMutants(t *testing.T) {
 		if v := other.sign(); v != "" {
 			t.Fatalf("C16 violated (completeness): %s\nunsigned: %q", v, other.Unsigned)
 		}
-		if evid.R.WantSample(true) {
-			evid.R.Sample(true, map[string]any{"kind": "document+all-position-mutants", "document": d, "signed": d.signed, "positions": len(d.signed) + 1})
-		}
 		if v := forgeries(d, other, st); v != "" {
 			t.Fatalf("C16 violated (soundness): %s\noriginal: %q", v, d.signed)
 		}
@@ -716,6 +800,11 @@ func TestSignVerifyAndMutants(t *testing.T) {
 			t.Fatalf("C16 violated (soundness): %s\noriginal: %q", v, d.signed)
 		}
 		evid.R.LabelN("positions-enumerated", len(d.signed)+1)
+		if evid.R.WantSample(true) {
+			evid.R.Sample(true, map[string]any{"kind": "document + every-position mutants + forgeries", "document": d, "signed": d.signed, "positions": len(d.signed) + 1,
+				"mutants_verified": st.mutants, "accepted_harmless_by_region": st.accepted, "accepted_examples": st.examples,
+				"rejected_example": map[string]any{"edit": "substitute", "position": 2, "mutant": d.signed[:2] + string(flipCase(d.signed[2])) + d.signed[3:]}})
+		}
 	})
 }
 
